@@ -24,6 +24,7 @@ the abstract semantics `Sem` is not refined to the arithmetic.
 -/
 import SqiModel.Ledger
 import SqiGen.Globals
+import SqiGen.ReturnPaths
 
 namespace SqiProps.C19
 open SqiModel.Ledger
@@ -204,6 +205,46 @@ theorem other_key_preserves (P : Params) (S : Sem D V O) (l : Bool) (st : State 
     (step P S l st (Op.keygen k' c)).1.val (.pk k) = st.val (.pk k) ∧ (step P S l st (Op.keygen k' c)).1.val (.sk k) = st.val (.sk k) ∧
     (step P S l st (Op.sign k' s' m c)).1.val (.pk k) = st.val (.pk k) ∧ (step P S l st (Op.sign k' s' m c)).1.val (.sk k) = st.val (.sk k) := by
   simp [step, setVal, hk]
+
+/-- verification does not write to its inputs: the values of all objects and the DRBG state are unchanged by `verify` (the real code is
+    tied by the harness: deep image of the signature / public-key objects before and after `protocols_verif`, and the same objects
+    verified repeatedly, interleaved with another key, must give the same verdicts) -/
+theorem verify_preserves_state (P : Params) (S : Sem D V O) (l : Bool) (st : State D V H) (k s m : Nat) (c : List Nat) :
+    (step P S l st (Op.verify k s m c)).1.val = st.val ∧ (step P S l st (Op.verify k s m c)).1.drbg = st.drbg := by
+  simp [step]
+
+/-- hence any number of verifications, in any order, gives each time the verdict of the first one -/
+theorem repeated_verify_same_verdict (P : Params) (S : Sem D V O) (l : Bool) (st : State D V H) (k s m : Nat) (c c' : List Nat)
+    (others : List (Nat × Nat × Nat × List Nat)) :
+    let vs := others.map fun o => Op.verify o.1 o.2.1 o.2.2.1 o.2.2.2
+    (run P S l (run P S l st vs).1 [Op.verify k s m c']).2 = (run P S l st [Op.verify k s m c]).2 := by
+  intro vs
+  have hval : ∀ (ops : List (Nat × Nat × Nat × List Nat)) (st0 : State D V H),
+      (run P S l st0 (ops.map fun o => Op.verify o.1 o.2.1 o.2.2.1 o.2.2.2)).1.val = st0.val := by
+    intro ops
+    induction ops with
+    | nil => intro st0; rfl
+    | cons o os ih => intro st0; simp only [List.map_cons, run]; rw [ih]; simp [step]
+  have h := hval others st
+  simp only [run, step]
+  rw [show (run P S l st vs).1.val = st.val from h]
+
+/-! ## every early return is balanced, except the audited ones (tie T, tools/translate/retpaths.py) -/
+
+/-- audited unbalanced returns on the current tree (each is a genuine leak on a failure path; repairs proposed in
+    notes/patches/C19-fix-failure-path-finalize.diff for the first four functions; the heuristic / hd signers' `return 0` after a
+    failed sample_response ("TODO when it fails, we don't finalize all the ibz") is not small) -/
+def auditedUnbalancedReturns : List (String × String × Nat × String) := [
+  ("src/dim2id2iso/ref/dim2id2isox/dim2id2iso.c", "dim2id2iso_ideal_to_isogeny_clapotis", 0, "adjust_u,adjust_v,norm,quat_gcd_remove,quat_tmp,target,test1,test2,theta,tmp,two_pow"),
+  ("src/dim2id2iso/ref/dim2id2isox/dim2id2iso.c", "fixed_degree_isogeny", 0, "theta,tmp,two_pow"),
+  ("src/klpt/ref/klptx/tools.c", "norm_list_computation", 0, "elli,remainder,temp"),
+  ("src/sqisigndim2/ref/sqisigndim2x/sign.c", "is_good_norm", 1, "pow2"),
+  ("src/sqisigndim2_heuristic/ref/sqisigndim2_heuristicx/sign.c", "protocols_sign", 0, "coeffs,degree_full_resp,degree_odd_resp,elem_tmp,lat_commit,lattice_content,lattice_hom_chall_to_com,lideal_aux,lideal_aux_com,lideal_chall_secret,lideal_chall_two,lideal_com_resp,lideal_commit,lideal_resp_two,lideal_tmp,mat,mat_Baux0_to_Baux_can,mat_Bchall_can_to_Bchall,pow_chall,remain,resp_quat,sig_mat_pk_can_to_B_pk,temp_norm,tmp,vec,vec_chall,vec_resp_two"),
+  ("src/sqisignhd/ref/sqisignhdx/sign.c", "is_good_norm", 1, "pow2"),
+  ("src/sqisignhd/ref/sqisignhdx/sign.c", "protocols_sign", 0, "coeffs,degree_full_resp,degree_odd_resp,elem_tmp,lat_commit,lattice_content,lattice_hom_chall_to_com,lideal_chall_secret,lideal_chall_two,lideal_com_resp,lideal_commit,lideal_resp_two,lideal_tmp,mat,mat_Bchall_can_to_Bchall,mat_Bcom0_to_Bcom_can,pow_chall,remain,resp_quat,sig_mat_pk_can_to_B_pk,temp_norm,tmp,vec,vec_chall,vec_resp_two")
+]
+
+theorem return_paths_audited : SqiGen.ReturnPaths.unbalancedReturns = auditedUnbalancedReturns := by decide +kernel
 
 /-! ## every static object of the sources is audited -/
 
